@@ -64,7 +64,7 @@ func getTemplateTracks(tracks pr.GridTemplate) []pr.GridSpec {
 							if len(tracksList)%2 != 0 {
 								tracksList[len(tracksList)-1] = append(tracksList[len(tracksList)-1].(pr.GridNames), repeatTrack.(pr.GridNames)...)
 							} else {
-								tracksList = append(tracksList, repeatTrack)
+								tracksList = append(tracksList, copyGridNames(repeatTrack))
 							}
 						}
 					}
@@ -77,11 +77,21 @@ func getTemplateTracks(tracks pr.GridTemplate) []pr.GridSpec {
 			if len(tracksList)%2 != 0 {
 				tracksList[len(tracksList)-1] = append(tracksList[len(tracksList)-1].(pr.GridNames), track.(pr.GridNames)...)
 			} else {
-				tracksList = append(tracksList, track)
+				tracksList = append(tracksList, copyGridNames(track))
 			}
 		}
 	}
 	return tracksList
+}
+
+// copyGridNames returns a copy of line names: the grid layout appends the
+// implicit names to them, and the value of the style is shared by every box
+// the declaration applies to.
+func copyGridNames(names pr.GridSpec) pr.GridSpec {
+	if names, ok := names.(pr.GridNames); ok {
+		return append(pr.GridNames{}, names...)
+	}
+	return names
 }
 
 type maybeInt struct {
@@ -890,6 +900,14 @@ func gridLayout(context *layoutContext, box_ Box, bottomSpace pr.Float, skipStac
 
 	if gridAreas.IsNone() {
 		gridAreas = pr.GridTemplateAreas{{""}}
+	} else {
+		// the rows and columns are adjusted below: work on a copy, the value of
+		// the style is shared by every box the declaration applies to
+		areas := make(pr.GridTemplateAreas, len(gridAreas))
+		for i, row := range gridAreas {
+			areas[i] = append([]string(nil), row...)
+		}
+		gridAreas = areas
 	}
 
 	rows := getTemplateTracks(style.GetGridTemplateRows())
